@@ -291,6 +291,10 @@ def extra_props(op, name):
             out += ['C18']
     if name in ('inline_alloc', 'ctor_alloc') and n == 'from_int':
         out += ['C14']
+    if name in ('index_panic_mismatch', 'fail_changed', 'fail_not_prefix', 'panic_state', 'frame_changed'):
+        out += ['C01']      # the outcome / resulting value differs from what String does
+    if name in ('growth_bounds',) :
+        out += []
     return out
 
 # ------------------------------------------------------------------------------------------------ property table
@@ -303,10 +307,10 @@ PROPS = {
     'C06': dict(profiles=['hostile', 'faults_hostile'], n=(3000, 100000)),
     'C07': dict(profiles=['hostile', 'hostile', 'valid'], n=(3000, 100000)),
     'C08': dict(profiles=['valid', 'hostile'], n=(2000, 80000)),
-    'C09': dict(profiles=['valid', 'hostile'], n=(2000, 80000)),
+    'C09': dict(profiles=['valid', 'hostile', 'faults'], n=(3000, 90000)),
     'C10': dict(profiles=['valid', 'hostile', 'faults'], n=(2000, 80000)),
-    'C11': dict(profiles=['valid', 'hostile'], n=(2000, 80000)),
-    'C12': dict(profiles=['valid', 'hostile'], n=(2000, 80000)),
+    'C11': dict(profiles=['valid', 'hostile', 'faults'], n=(3000, 90000)),
+    'C12': dict(profiles=['valid', 'hostile', 'faults'], n=(3000, 90000)),
     'C13': dict(profiles=['valid', 'hostile', 'faults'], n=(2000, 80000)),
     'C15': dict(profiles=['valid', 'hostile', 'faults'], n=(1500, 60000)),
     'C17': dict(profiles=['valid', 'hostile'], n=(1500, 60000)),
